@@ -537,8 +537,23 @@ fn c02(ix: &Ix, f: &mut Findings) {
                 }
             }
         }
-        // program order of one sequential sender, asks included: an ask that returned Ok was handled before the sender's next call
-        // (follows from C03.integrity + the clause above; not repeated)
+        // any two handled messages whose calls did not overlap are handled in call order: a message that is handled at all
+        // was pushed during its own call (asks, timed-out and cancelled calls included)
+        for p in &ops {
+            let Some(pc) = p.closed_pos() else { continue };
+            let Some(hp) = ix.henter.get(&p.uid) else { continue };
+            for q in &ops {
+                if pc >= q.s {
+                    continue;
+                }
+                if let Some(hq) = ix.henter.get(&q.uid) {
+                    f.o("C02.order_any");
+                    if hp[0] > hq[0] {
+                        f.v("C02.order", Some(a), format!("actor {a}: the call for uid {} ({:?}) had finished before the call for uid {} ({:?}) began, both were handled, but in the opposite order", p.uid, p.kind, q.uid, q.kind));
+                    }
+                }
+            }
+        }
         // stop(): nothing sent after stop() returned is ever handled
         for sop in &x.stops {
             let s = &ix.ops[sop];
